@@ -3,7 +3,7 @@ import re
 
 from ..core import AnalysisError, anchor
 from .. import cfront
-from ..cfront import walk, strip, callee_name, call_args, render, line_of, is_assign, qtype
+from ..cfront import walk, strip, callee_name, call_args, render, line_of, is_assign, qtype, toks
 from . import x1, x3, sibling, symexec
 
 
@@ -193,7 +193,97 @@ def rule_components(ctx):
                 stats['groups'], floor=50, samples=stats['samples'])
 
 
+def _sum_terms(t):
+    """flatten a token tree over + into its terms."""
+    if t[0] == 'bin' and t[1] == '+':
+        return _sum_terms(t[2]) + _sum_terms(t[3])
+    if t[0] == 'cast':
+        return _sum_terms(t[2])
+    return [t]
+
+
+def rule_pruning_radius(ctx):
+    """R13.7: a tree cell may be skipped only if no particle in it can touch particle 1. The opening radius compared with
+    the distance to the cell centre therefore has to be a sum containing (a) the search radius of particle 1 - the radius
+    plus the distance travelled in the last step where the walk receives one -, (b) a bound on the partner's radius
+    (max_radius), (c) for the line search a bound on the partner's travel (maxdrift) and (d) at least sqrt(3)/2 times the
+    cell width (half the diagonal). Dropping any term loses collisions without any other visible effect."""
+    tu = cfront.load_tu('collision.c')
+    n = 0
+    samples = []
+    walks = {'reb_tree_get_nearest_neighbour_in_cell': {'p1': 'p1_r', 'line': False},
+             'reb_tree_check_for_overlapping_trajectories_in_cell': {'p1': 'p1_r_plus_dtv', 'line': True}}
+    for fname, spec in walks.items():
+        fn = tu.func(fname)
+        pnames = [p.get('name') for p in cfront.params(fn)]
+        anchor(spec['p1'] in pnames, '%s receives %s' % (fname, spec['p1']))
+        # the opening test: if (r2 < rp*rp) around the recursive calls
+        rp = None
+        for ifs in walk(cfront.body(fn)):
+            if ifs.get('kind') != 'IfStmt':
+                continue
+            if not any(e.get('kind') == 'CallExpr' and callee_name(e) == fname for e in walk(ifs['inner'][1])):
+                continue
+            c = strip(ifs['inner'][0])
+            if c.get('kind') == 'BinaryOperator' and c['opcode'] in ('<', '<='):
+                rhs = toks(c['inner'][1])
+                if rhs[0] == 'bin' and rhs[1] == '*' and rhs[2] == rhs[3] and rhs[2][0] == 'id':
+                    rp = rhs[2][1]
+        anchor(rp is not None, 'opening test r2 < rp*rp around the recursion of %s' % fname)
+        init = None
+        for d in walk(cfront.body(fn)):
+            if d.get('kind') == 'VarDecl' and d.get('name') == rp and 'init' in d:
+                ini = [c_ for c_ in d.get('inner', []) if c_.get('kind') not in ('FullComment',)]
+                t_ = toks(ini[-1])
+                if any(x.get('kind') == 'MemberExpr' and x.get('name') == 'w' for x in walk(ini[-1])):
+                    init = (t_, line_of(d))
+        anchor(init is not None, 'opening radius %s = ... + k*c->w in %s' % (rp, fname))
+        terms = [render(t_).replace(' ', '') for t_ in _sum_terms(init[0])]
+        where = 'src/collision.c:%s %s' % (init[1], fname)
+        need = [(spec['p1'], 'the search radius of particle 1 (%s)' % spec['p1'], lambda ts, nm=spec['p1']: nm in ts),
+                ('max_radius', 'a bound on the partner\'s radius (r->max_radius1 or max_radius0)', lambda ts: any(t_ in ('r.max_radius1', 'r.max_radius0') for t_ in ts))]
+        if spec['line']:
+            need.append(('maxdrift', 'a bound on the partner\'s travel during the step (maxdrift)', lambda ts: 'maxdrift' in ts))
+        for key, what, pred in need:
+            n += 1
+            if not pred(terms):
+                ctx.report('R13.7', '%s:%s' % (fname, key), where, 'the opening radius %s = %s lacks %s: cells holding a colliding partner are skipped' % (rp, ' + '.join(terms), what))
+        n += 1
+        coef = None
+        for t_ in _sum_terms(init[0]):
+            if t_[0] == 'bin' and t_[1] == '*':
+                sides = (t_[2], t_[3])
+                for a_, b_ in (sides, sides[::-1]):
+                    if a_[0] == 'lit' and render(b_).replace(' ', '') in ('c.w', 'node.w'):
+                        coef = float(a_[1])
+        if coef is None or coef < 0.8660254037:
+            ctx.report('R13.7', '%s:diagonal' % fname, where, 'the opening radius adds %s times the cell width; half the diagonal of a cube is sqrt(3)/2 = 0.8660254...' % coef)
+        samples.append('%s: %s = %s' % (where, rp, ' + '.join(terms)))
+        # no parameter of the walk is merely handed down the recursion
+        for prm in cfront.params(fn):
+            nm = prm.get('name')
+            if not nm:
+                continue
+            n += 1
+            uses = 0
+            passed = 0
+            for e in walk(cfront.body(fn)):
+                if e.get('kind') == 'DeclRefExpr' and e['referencedDecl'].get('name') == nm:
+                    uses += 1
+                if e.get('kind') == 'CallExpr' and callee_name(e) == fname:
+                    for a_ in call_args(e):
+                        sa = strip(a_)
+                        if sa.get('kind') == 'DeclRefExpr' and sa['referencedDecl'].get('name') == nm:
+                            passed += 1
+            if uses and uses == passed:
+                ctx.report('R13.7', '%s:dead:%s' % (fname, nm), 'src/collision.c %s' % fname,
+                           'parameter %s is only handed down the recursion and never consulted: the quantity it carries no longer takes part in the search' % nm)
+    ctx.covered('R13.7', 'tree collision walks: opening radius contains the search radius of particle 1, the partner radius bound, the partner drift bound (line search) and >= sqrt(3)/2 cell widths; no walk parameter is dead',
+                n, floor=20, samples=samples)
+
+
 def run(ctx):
+    rule_pruning_radius(ctx)
     rule_dispatch(ctx)
     rule_fixup_siblings(ctx)
     rule_merge(ctx)
